@@ -374,14 +374,14 @@ def check_dimensions(ctx, db):
 
 def run(ctx):
     db = ctx.db
-    check_bookkeeping(ctx, db)
-    check_units(ctx, db)
-    check_enums(ctx, db)
-    check_bounds(ctx, db)
-    check_siblings(ctx, db)
-    check_dimensions(ctx, db)
+    ctx.attempt(check_bookkeeping, ctx, db)
+    ctx.attempt(check_units, ctx, db)
+    ctx.attempt(check_enums, ctx, db)
+    ctx.attempt(check_bounds, ctx, db)
+    ctx.attempt(check_siblings, ctx, db)
+    ctx.attempt(check_dimensions, ctx, db)
     from . import C02   # the OASIS PATH extension scheme written for a simple path announces exactly the extensions that follow
-    C02.check_path_extensions(ctx, db)
+    ctx.attempt(C02.check_path_extensions, ctx, db)
 
 
 MANIFEST = dict(
